@@ -43,6 +43,35 @@ fn field(lines: &[String], key: &str, idx: usize) -> Option<String> {
     None
 }
 
+/// (coins arrived since the last withdrawal < coins the matured unreleased batches expect,
+///  number of wait entries of `user`)
+fn release_shortfall(lines: &[String], user: &str, now: u64, unbonding: u64) -> (bool, u128) {
+    const ONE: u128 = 1_000_000_000_000_000_000;
+    let mut expected: u128 = 0;
+    let hist_cut = now.saturating_sub(unbonding) as u128;
+    for l in lines {
+        if let Some(rest) = l.strip_prefix("hub.hist ") {
+            let f: Vec<u128> = rest.split(' ').map(|x| x.parse().unwrap_or(0)).collect();
+            // ID TIME BAMT BAPPLIED BWITHDRAW SAMT SAPPLIED SWITHDRAW RELEASED
+            if f.len() == 9 && f[8] == 0 && f[1] <= hist_cut {
+                expected = expected
+                    .saturating_add(f[2].saturating_mul(f[4]) / ONE)
+                    .saturating_add(f[5].saturating_mul(f[7]) / ONE);
+            }
+        }
+    }
+    let phb: u128 = field(lines, "hub.stored", 5).and_then(|s| s.parse().ok()).unwrap_or(0);
+    let mut bal: u128 = 0;
+    for l in lines {
+        if let Some(rest) = l.strip_prefix("bank hub usei ") {
+            bal = rest.parse().unwrap_or(0);
+        }
+    }
+    let pre = format!("hub.wait {} ", user);
+    let entries = lines.iter().filter(|l| l.starts_with(&pre)).count() as u128;
+    (bal.saturating_sub(phb) < expected, entries)
+}
+
 fn try_op(w: &mut World, line: &str) -> (bool, String) {
     match parse_op(line) {
         Ok(op) => {
@@ -154,9 +183,18 @@ pub fn run<W: Write>(text: &str, stride: u64, out: &mut W) -> Result<(), String>
                         .next()
                         .and_then(|s| s.parse().ok())
                         .unwrap_or(0);
+                    // the WithdrawableUnbonded query prices matured claims at the rates BEFORE the release; if
+                    // fewer coins arrived than the matured batches expect (slashing of unbonding stake earlier
+                    // in the history) the release lowers them, so `wd` is no lower bound then.  Without a
+                    // shortfall each claim entry loses at most one unit to re-flooring.
+                    let dl = dump(&w);
+                    let (shortfall, entries) = release_shortfall(&dl, a, w.now, unbonding);
                     let (ok, why) = try_op(&mut w, &format!("hub {} withdraw", a));
                     if ok {
                         writeln!(out, "probe {} exit {} {} ok withdraw -", index, tok, a).map_err(|e| e.to_string())?;
+                    } else if shortfall || wd < 2 * entries + 1 {
+                        writeln!(out, "probe {} exit {} {} skip withdraw wd={} entries={} shortfall={} {}", index, tok, a, wd, entries, shortfall, why)
+                            .map_err(|e| e.to_string())?;
                     } else if wd == 0 {
                         writeln!(out, "probe {} exit {} {} skip withdraw claim worth nothing: {}", index, tok, a, why).map_err(|e| e.to_string())?;
                     } else {
